@@ -107,7 +107,16 @@ class C16(Check):
         for v in verts:
             Vertex.NEIGHBOR_CACHING = False       # neighbours in neighbors() order = link order
             try:
-                nbs = helpers.neighbors(v)
+                # "its FORWARD neighbours": the documented rule evaluated link by link (model-free, independent of
+                # helpers.neighbors); where the rule does not speak (n-ary links, half-assigned edges) the real function
+                try:
+                    from props_query import rule_neighbors, Unspecified
+                    try:
+                        nbs = rule_neighbors(v, 0, 2, None)
+                    except Unspecified:
+                        nbs = helpers.neighbors(v)
+                except (NotImplementedError, ValueError):
+                    return None      # the render itself would have raised
             finally:
                 Vertex.NEIGHBOR_CACHING = caching
             if key:
